@@ -51,11 +51,17 @@ static std::string check_hooks( bool has_unwind, bool& action_exc_defect )
             break;
          case E_APPLY:
          case E_APPLY0:
+#ifdef VERIF_TREE
+            if( !st.empty() && st.back().rule == e.rule && st.back().state == 0 && TR::hooks_optional( st.back().rule, st.back().kind ) ) {
+               st.back().state = 7;  // parse_tree forwards apply, but not start/success/failure, of an unselected rule
+               break;
+            }
+#endif
             if( st.empty() || st.back().rule != e.rule || st.back().state != 1 ) return "apply hook out of protocol";
             st.back().state = 2;
             break;
          case E_ACT:
-            if( st.empty() || st.back().rule != e.rule || st.back().state != 2 ) return "action ran outside its apply hook";
+            if( st.empty() || st.back().rule != e.rule || ( st.back().state != 2 && st.back().state != 7 ) ) return "action ran outside its apply hook";
             break;
          case E_SUCCESS:
             if( st.empty() || st.back().rule != e.rule || ( st.back().state != 1 && st.back().state != 2 ) ) return "success hook out of protocol";
@@ -65,12 +71,17 @@ static std::string check_hooks( bool has_unwind, bool& action_exc_defect )
             if( st.empty() || st.back().rule != e.rule || ( st.back().state != 1 && st.back().state != 2 ) ) return "failure hook out of protocol";
             st.back().state = 4;
             break;
+         case E_FAIL_RAISE:  // must_if: this rule failed locally and its table entry turns that into a raise (outside the unwind guard)
+            if( st.empty() || st.back().rule != e.rule || ( st.back().state != 1 && st.back().state != 2 ) ) return "failure hook out of protocol";
+            st.back().state = 6;
+            break;
          case E_UNWIND:
             if( st.empty() || st.back().rule != e.rule || ( st.back().state != 1 && st.back().state != 2 ) ) return "unwind hook out of protocol";
             st.back().state = 5;
             break;
          case E_RAISE:
             if( st.empty() ) return "raise outside any rule";
+            if( st.back().state == 6 && st.back().rule == e.rule ) break;  // must_if: the failure hook raises through the base control
             if( st.back().kind != RK_MUST && st.back().kind != RK_RAISE ) {
                // a table rule that *is* must< R > / raise< R > (node<I>::match dispatches to it directly)
                const int op = st.back().kind == RK_NODE ? tab[ st.back().rule ].op : -1;
@@ -87,6 +98,9 @@ static std::string check_hooks( bool has_unwind, bool& action_exc_defect )
                if( f.state != 0 ) return "hooks ran for a rule whose control is disabled";
                break;
             }
+#ifdef VERIF_TREE
+            if( ( f.state == 0 || f.state == 7 ) && TR::hooks_optional( f.rule, f.kind ) ) break;
+#endif
             if( e.type == E_EXIT_T && f.state != 3 ) return "rule returned true without exactly one success hook";
             if( e.type == E_EXIT_F && f.state != 4 ) return "rule returned false without exactly one failure hook";
             if( e.type == E_EXIT_X ) {
@@ -96,6 +110,7 @@ static std::string check_hooks( bool has_unwind, bool& action_exc_defect )
                      break;
                   }
                   if( f.state == 0 ) break;  // exception before start (cannot happen with these controls)
+                  if( f.state == 6 ) break;  // must_if raise_on_failure: the failure was turned into the exception
                   if( f.state != 5 ) return "exception left a rule attempt without unwind (state " + std::to_string( f.state ) + ")";
                }
                else if( f.state != 1 && f.state != 2 )
@@ -107,6 +122,13 @@ static std::string check_hooks( bool has_unwind, bool& action_exc_defect )
    }
    if( !st.empty() ) return "attempts left open at the end of the run";
    return "";
+}
+
+// monitor controls: plain (0), without unwind (1), all rules enabled (2), must_if tables over the monitor (4, 5),
+// the monitor behind remove_first_state (8)
+static bool hooks_checked_for( int ctl )
+{
+   return ctl <= 2 || ctl == 4 || ctl == 5 || ctl == 8;
 }
 
 // ---------------------------------------------------------------- one execution
@@ -131,9 +153,9 @@ static void one_execution( const Case& c, const std::vector< int >& pre, bool ve
    X.begin( pre );
    memo.clear();
    g_begin = buf.p;
-   L.record_events = S.check_hooks && c.cfg.ctl <= 2;
-   g_errors = ( c.cfg.ctl == 4 || c.cfg.ctl == 6 ) ? 1 : ( c.cfg.ctl == 5 || c.cfg.ctl == 7 ) ? 2 : 0;
-   monitor_frames = ( c.cfg.ctl < 6 );  // controls 6 and 7 are must_if over the plain normal control: no monitor frames
+   L.record_events = S.check_hooks && hooks_checked_for( c.cfg.ctl );
+   g_errors = ( c.cfg.ctl == 4 || c.cfg.ctl == 6 || c.cfg.ctl == 9 ) ? 1 : ( c.cfg.ctl == 5 || c.cfg.ctl == 7 ) ? 2 : 0;
+   monitor_frames = ( c.cfg.ctl < 6 || c.cfg.ctl == 8 );  // controls 6, 7 and 9 are must_if over the plain normal control: no monitor frames
    g_current_case = &c;
    // the reference runs first: where it diverges there is no PEG result to compare with (DESIGN §3.1)
    RI.data = buf.p;
@@ -331,6 +353,10 @@ static void one_execution( const Case& c, const std::vector< int >& pre, bool ve
             for( auto& e : RI.sw_acts ) w += sh( e );
             for( auto& e : T::sw_acts ) g += sh( e );
             report( "C13", "actions fired with the wrong action family or state instance", c, "want " + w + "| got " + g );
+            // which rules' actions ran at all (family and state set aside) is what enable_action / disable_action decide: C04
+            bool spans = T::sw_acts.size() == RI.sw_acts.size();
+            for( size_t i = 0; spans && i < RI.sw_acts.size(); ++i ) spans = ( T::sw_acts[ i ].rule == RI.sw_acts[ i ].rule && T::sw_acts[ i ].b == RI.sw_acts[ i ].b && T::sw_acts[ i ].e == RI.sw_acts[ i ].e );
+            if( !spans ) report( "C04", "surviving action invocations differ inside enable_action / disable_action / change_action scopes", c, "want " + w + "| got " + g );
          }
       }
       if( o.k == R::OK || o.k == R::FAIL ) {
@@ -401,7 +427,7 @@ static void one_execution( const Case& c, const std::vector< int >& pre, bool ve
       }
    }
    // ---- hook protocol (C08)
-   if( S.check_hooks && c.cfg.ctl <= 2 ) {
+   if( S.check_hooks && hooks_checked_for( c.cfg.ctl ) ) {
       bool defect = false;
       const std::string h = check_hooks( c.cfg.ctl != 1, defect );
       if( !h.empty() ) report( "C08", h, c );
@@ -509,7 +535,7 @@ int main( int argc, char** argv )
       for( const auto& s : ph.extra_inputs ) inputs.push_back( s );
       pe.run( [ & ]( int n ) {
          int nholes = 0;
-         for( int i = 0; i < n; ++i ) nholes += ( tab[ i ].op == HOLE );
+         for( int i = 0; i < n; ++i ) nholes += ( tab[ i ].op == HOLE || tab[ i ].op == THOLE );
          if( ph.need_hole && nholes == 0 ) return;
          if( nholes > ph.max_holes ) return;
          if( ( prog_index++ % vf::args.nshards ) != vf::args.shard ) return;
